@@ -618,6 +618,9 @@ func (re *Regexp) GroupNumberFromName(name string) int {
 	}
 
 	// convert to an int if it looks like a number
+	if len(name) == 0 {
+		return -1
+	}
 	result := 0
 	for i := 0; i < len(name); i++ {
 		ch := name[i]
@@ -628,6 +631,10 @@ func (re *Regexp) GroupNumberFromName(name string) int {
 
 		result *= 10
 		result += int(ch - '0')
+		if result >= re.capsize {
+			// out of range; stopping here also keeps long digit strings from overflowing
+			return -1
+		}
 	}
 
 	// return int if it's in range
